@@ -44,6 +44,7 @@ type Ctx struct {
 
 	cgCache map[*ssa.Function][]*ssa.Function
 	provBusy map[provKey]bool
+	libraryIndexed map[*ssa.Function]bool
 }
 
 // LoadOpts selects the build configuration and an optional overlay.
@@ -80,7 +81,7 @@ func loadRepo(o LoadOpts) (*Ctx, error) {
 	if err != nil {
 		return nil, fmt.Errorf("go/packages: %w", err)
 	}
-	c := &Ctx{Repo: o.Repo, GOOS: o.GOOS, GOARCH: o.GOARCH, Pkgs: pkgs, cgCache: map[*ssa.Function][]*ssa.Function{}}
+	c := &Ctx{Repo: o.Repo, GOOS: o.GOOS, GOARCH: o.GOARCH, Pkgs: pkgs, cgCache: map[*ssa.Function][]*ssa.Function{}, libraryIndexed: map[*ssa.Function]bool{}}
 	nerr := 0
 	packages.Visit(pkgs, nil, func(p *packages.Package) {
 		for _, e := range p.Errors {
